@@ -10,6 +10,9 @@ CLAIMED = {
  "C11": ("path-occurrence counting on SSA CFG + call-graph confinement + guard dominance (static)",
          "Structural clauses decided for every path / call site: each request closure replies exactly once; the queueing function pairs one hand-off with one receive; state-writing data-source calls from RPC handlers are confined to request closures (start phase / after run-done barrier excepted); requests run synchronously in the block-processing goroutine; no panic/log.Fatal/os.Exit site reachable from request code; RPC-argument-derived indices/lengths are guarded on both sides before use. Not decided: runtime errors outside the modelled sink kinds, latency.",
          "go/ssa + VTA call graph faithful; net/rpc dispatch modelled as 'exported methods of registered types'; idiom tables in dlint/rules_c11*.go", "DESIGN.md §2 C11"),
+ "C07": ("path-occurrence counting, must-pass-through and who-may-receive rules on SSA (static)",
+         "Structural mechanism of record-atomic FIFO file writing decided for all schedules and stall patterns: <=1 fallible enqueue per record on every path of every per-record writer; multi-enqueue header writers only on a fresh queue with sufficient capacity; the enqueue is all-or-nothing with correct results per arm and is the only sender; single consumer goroutine, received slices go straight to bufio; drain-until-empty then bufio.Flush then acknowledge; Flush/Close wait for exactly one acknowledge; async writer closed before the file; enqueued bytes never backed by a writer-owned buffer. Not decided: disk write errors in the consumer, what callers do with a rejection.",
+         "Go channel FIFO and bufio semantics assumed; anchors found structurally (chan []byte field, go statement in the constructor)", "DESIGN.md §2 C07"),
 }
 
 NOT_BUILT_REASON = "static rule designed in DESIGN.md but not built yet; not claimed until it is"
